@@ -55,21 +55,26 @@ def _setup_modules():
         fh.write(gen_traced.traced_source())
     with open(os.path.join(d, "mtx_unwanted.py"), "w") as fh:
         fh.write(gen_traced.unwanted_source())
+    # a byte-identical twin of the traced module (a vendored copy, a generated sibling): its code objects compare
+    # EQUAL to the original's, yet its functions are different functions of a different module
+    with open(os.path.join(d, "mtx_twin.py"), "w") as fh:
+        fh.write(gen_traced.traced_source())
     sys.path.insert(0, d)
     import mtx_traced as M
     import mtx_unwanted as MU
-    ns = {"M": M, "MU": MU, "OBJ": M.Kls(), "SUB": M.Sub()}
+    import mtx_twin as MT
+    ns = {"M": M, "MU": MU, "MT": MT, "OBJ": M.Kls(), "SUB": M.Sub(), "TOBJ": MT.Kls()}
     targets, reg = {}, {}
     for model_f, lst in gen_traced.TARGETS.items():
         for t in lst:
             sigf = eval(t["sig"], ns)
-            canon_name = sigf.__qualname__
+            canon_name = sigf.__qualname__ if sigf.__module__ != "mtx_twin" else "mtx_twin:" + sigf.__qualname__
             t2 = dict(t, model=model_f, wanted=(model_f != "U"), canon=canon_name,
                       maker_f=eval(t["maker"], ns), sigfunc=(lambda f=sigf: f),
                       selfargs_f=(lambda e=t["selfargs"]: eval(e, ns)))
             targets[t["name"]] = t2
-            reg[sigf.__code__] = (canon_name, model_f != "U", model_f)
-    _ENV.update(dir=d, M=M, MU=MU, targets=targets, reg=reg, traced_path=M.__file__)
+            reg[id(sigf.__code__)] = (canon_name, model_f != "U", model_f)     # by identity: twins have equal code objects
+    _ENV.update(dir=d, M=M, MU=MU, MT=MT, targets=targets, reg=reg, traced_path=M.__file__, twin_path=MT.__file__)
     return _ENV
 
 
@@ -79,7 +84,7 @@ class RecordingLogger:
 
     def log(self, trace):
         code = getattr(trace.func, "__code__", None)
-        name, wanted, model = self.reg.get(code, ("?" + getattr(trace.func, "__qualname__", "?"), False, "?"))
+        name, wanted, model = self.reg.get(id(code), ("?" + getattr(trace.func, "__qualname__", "?"), False, "?"))
         self.S.emit(ev="Log", f=name, known=wanted, model=model,
                     args=[{"n": n, "ty": absmodel.abs_type(t)} for n, t in trace.arg_types.items()],
                     ret=absmodel.ABSENT if trace.return_type is None else absmodel.abs_type(trace.return_type),
@@ -145,13 +150,13 @@ def run_scenario(sc):
     acts, chosen = build_actions(sc["hist"], rng, env, sc.get("rich"), admit, sc.get("force"))
     targets = {n: t["maker_f"] for n, t in env["targets"].items()}
     S.reset(acts, targets, absmodel.abs_value)
-    reg = env["reg"] if admit is None else {c: (n, w and c.co_qualname in admit, m) for c, (n, w, m) in env["reg"].items()}
+    reg = env["reg"] if admit is None else {c: (n, w and n.split(":")[-1] in admit, m) for c, (n, w, m) in env["reg"].items()}
     logger = RecordingLogger(S, reg)
-    traced_path = env["traced_path"]
+    traced_path = (env["traced_path"], env["twin_path"])
     if admit is None:
-        code_filter = lambda code: code.co_filename == traced_path  # noqa: E731
+        code_filter = lambda code: code.co_filename in traced_path  # noqa: E731
     else:
-        code_filter = lambda code: code.co_filename == traced_path and code.co_qualname in admit  # noqa: E731
+        code_filter = lambda code: code.co_filename in traced_path and code.co_qualname in admit  # noqa: E731
     old_random = mtt.random
     mtt.random = script.FakeRandom()
     err = "NONE"
